@@ -112,6 +112,18 @@ CLAIMED["C05"] = (
     "DESIGN.md 3 C05",
 )
 
+CLAIMED["C06"] = (
+    SMT + ": regex-theory language inclusion over unbounded strings for the accept decision of is_valid_field_name, the type-name pattern and the fieldtype() whitelist guard",
+    "The accept decision of the real is_valid_field_name (translated from its AST, with the live compiled regex translated through sre_parse) is shown, for ALL strings, to "
+    "accept only ASCII identifiers without leading underscore (plus the trailing-newline slack of '$') and every non-reserved identifier; likewise the type-name pattern "
+    "(and that no accepted name contains a double quote) and the guard of fieldtype() (passes iff whitelisted, optionally with '[]'). What a solver cannot decide - "
+    "Python's own parser for the newline slack, and the four delivery channels - is covered by replaying solver witnesses and a hostile-payload battery through the "
+    "constructor, a crafted descriptor frame, a JSON descriptor line and an Avro schema with an exec-capture tripwire (concrete side condition, reported as such).",
+    "Trusted: sre_parse -> z3 regex translation (validated against re on solver-drawn members/non-members every run). A validator rewritten with constructs the translator "
+    "does not support (str.isidentifier, rstrip) makes the SMT obligations inconclusive; such changes are then only seen by the concrete payload battery.",
+    "DESIGN.md 3 C06",
+)
+
 NOT_APPLICABLE = {
     "C13": "every operation the property constrains (datetime construction/arithmetic, fromisoformat, zoneinfo, fastavro/sqlite3 conversions) is C code; "
     "CrossHair realises each datetime component at the C constructor and the repo-side logic is two value-free ifs, so no value-level case would be decided by the solver (DESIGN.md 6)",
